@@ -87,6 +87,7 @@ func c11(c *q.Ctx) {
 	if vo != nil {
 		g := "xmodel.(*XModel).GetWithTxStatus(p0.xmodel,utils.GetContract2AccountBucket(),p1)"
 		c.Guard(vo, q.Cond{Canon: g + "#1", Sense: false}, q.ToSuccess(), q.Opt{})
+		c.OnlyUnder(vo, q.ToSuccess(), []q.Cond{{Canon: g + "#1", Sense: true}}, "every accepting exit - including the already-verified shortcut - lies behind the test that the owner record is confirmed")
 		c.Guard(vo, q.Cond{Canon: "(nil == " + g + "#2)", Sense: false}, q.ToSuccess(), q.Opt{})
 		c.Guard(vo, q.Cond{Canon: "(nil == " + g + "#0.PureData)", Sense: true}, q.ToSuccess(), q.Opt{})
 		c.ArgIs(vo, "utils::IdentifyAccount", 1, g+"#0.PureData.Value", 1, "the owner is the account recorded for the contract")
